@@ -314,10 +314,10 @@ impl BDF {
                 }
                 let factor = step_to_end / h_try;
                 change_d(&mut d, order, factor, &mut scratch_change);
-                current_h *= factor;
-                h_try = current_h;
-                h_signed = direction * h_try;
-                x_new = x + h_signed;
+                // Land on xend itself: x + h can round one ulp short of it
+                current_h = step_to_end;
+                h_signed = xend - x;
+                x_new = xend;
                 n_equal_steps = 0;
                 lu_is_current = false;  // Step size changed
             }
